@@ -127,6 +127,11 @@ theorem slice_multi_partial (t : Tensor α) (starts ends axes steps : List Int)
     ∃ m, sliceOp t starts ends (some axes) (some steps) = .ok m ∧ Equiv m s :=
   Proofs.Index2.slice_multi t starts ends axes steps hpos s hs hg.1 hg.2
 
+-- non-vacuity: a 3×4 tensor, axes [-1, 0]: columns 1, 3 of rows 1, 2 — every hypothesis is discharged
+private def nv_m : Tensor Nat := ⟨[3, 4], List.range 12⟩
+example : ∃ m, sliceOp nv_m [1, 1] [9, 3] (some [-1, 0]) (some [2, 1]) = .ok m ∧ Equiv m ⟨[2, 2], [5, 7, 9, 11]⟩ :=
+  slice_multi_partial nv_m [1, 1] [9, 3] [-1, 0] [2, 1] rfl (by simp [Proofs.Pos, nv_m]) _ (by decide) (by unfold SliceGuards; decide)
+
 set_option linter.unusedVariables false in
 /-- default axes (`0 … len(starts)-1`) and default steps (all 1) -/
 theorem slice_defaults_partial (t : Tensor α) (starts ends : List Int)
@@ -136,6 +141,10 @@ theorem slice_defaults_partial (t : Tensor α) (starts ends : List Int)
     (hg : SliceGuards t starts ends ((List.range starts.length).map fun (i : Nat) => (i : Int)) (List.replicate starts.length 1) s) :
     ∃ m, sliceOp t starts ends none none = .ok m ∧ Equiv m s :=
   Proofs.Index2.slice_multi t starts ends _ _ hpos s hs hg.1 hg.2
+
+-- non-vacuity: default axes and steps on the same tensor: rows 1..2, columns 1..3
+example : ∃ m, sliceOp nv_m [1, 1] [3, 4] none none = .ok m ∧ Equiv m ⟨[2, 3], [5, 6, 7, 9, 10, 11]⟩ :=
+  slice_defaults_partial nv_m [1, 1] [3, 4] rfl (by simp [Proofs.Pos, nv_m]) _ (by decide) (by unfold SliceGuards; decide)
 
 /-! ### every clause of the guards is needed -/
 
